@@ -120,7 +120,8 @@ CLAIMED.update({
     "C16": ("proof", "ModuleIdentityObject / ListIdentityObject decoding and the ListIdentity reply parsing are proved equal to the field layout of "
             "CIP Vol 1 5-2 / Vol 2 2-4.2 (spec/identity.py) for all field values (ids 0..65535 through the vendor / product-type tables as "
             "uninterpreted lookups with the 'UNKNOWN' default, serial as 8 hex digits, Latin-1 names of length 0..255, any IPv4, any state); "
-            "dict -> bytes -> dict identity for table names; get_module_info / get_plc_info / _list_identity proved end to end over an assumed transport",
+            "dict -> bytes -> dict identity for table names; get_module_info / get_plc_info (also: each poll returns what was answered this time) / _list_identity / CIPDriver.list_identity proved end to "
+            "end over an assumed transport; discover / _broadcast_discover over an assumed UDP socket (every datagram reported, whatever its length)",
             "contracts against a reference layout (pyvc + z3)", "DESIGN.md 3 (C16), 9"),
 })
 
